@@ -289,9 +289,43 @@ func extFreshResult(pkg, name string) bool {
 		}
 	case "bytes":
 		switch name {
-		case "Equal", "HasPrefix", "HasSuffix", "IndexByte", "Index", "Contains", "Count", "Compare", "NewReader", "Join":
+		case "Equal", "HasPrefix", "HasSuffix", "IndexByte", "Index", "Contains", "Count", "Compare", "NewReader", "Join", "Clone", "ToUpper", "ToLower", "Repeat", "ReplaceAll", "Replace":
 			return name != "NewReader"
 		}
+	case "slices", "maps":
+		switch name {
+		case "Clone", "Collect", "Sorted", "SortedFunc", "Concat", "Index", "IndexFunc", "Contains", "Equal", "Compare":
+			return true
+		}
+	}
+	if pkg == "strings" && name == "Clone" {
+		return true
+	}
+	return false
+}
+
+// extSubSlice: every result is a sub-slice of the first argument (no new container).
+func extSubSlice(pkg, name string) bool {
+	if pkg != "bytes" && pkg != "strings" {
+		return false
+	}
+	switch name {
+	case "CutPrefix", "CutSuffix", "Cut", "TrimPrefix", "TrimSuffix", "Trim", "TrimLeft", "TrimRight", "TrimSpace", "TrimFunc", "TrimLeftFunc", "TrimRightFunc":
+		return true
+	}
+	return false
+}
+
+// extAliasesArg0Only: the results are sub-slices of the first argument and
+// never of the others (prefixes, suffixes, cut sets, separators).
+func extAliasesArg0Only(pkg, name string) bool {
+	if pkg != "bytes" && pkg != "strings" {
+		return false
+	}
+	switch name {
+	case "CutPrefix", "CutSuffix", "Cut", "TrimPrefix", "TrimSuffix", "Trim", "TrimLeft", "TrimRight", "TrimSpace", "TrimFunc", "TrimLeftFunc", "TrimRightFunc",
+		"Split", "SplitN", "SplitAfter", "SplitAfterN", "Fields", "FieldsFunc":
+		return true
 	}
 	return false
 }
@@ -528,6 +562,19 @@ func (s *ptSolver) genCall(f *ssa.Function, c ssa.CallInstruction) {
 				s.dyn = append(s.dyn, ptDyn{fnNode: s.node(a), call: nil, bound: map[*ssa.Function]bool{}})
 			}
 		}
+		if val != nil && extSubSlice(pkg, callee.Name()) && len(com.Args) > 0 {
+			// the results are sub-slices of the first argument: same objects, nothing new
+			if t, ok := val.Type().(*types.Tuple); ok {
+				for i := 0; i < t.Len(); i++ {
+					if n := s.comp(val, i); !s.nocarry[n] {
+						s.copies = append(s.copies, [2]int{n, s.node(com.Args[0])})
+					}
+				}
+			} else {
+				s.copies = append(s.copies, [2]int{s.node(val), s.node(com.Args[0])})
+			}
+			return
+		}
 		if val != nil {
 			o := s.fresh(val, fmt.Sprintf("ext:%s@%d", full, line))
 			targets := []int{s.node(val)}
@@ -541,7 +588,11 @@ func (s *ptSolver) genCall(f *ssa.Function, c ssa.CallInstruction) {
 				}
 			}
 			if !extFreshResult(pkg, callee.Name()) {
-				for _, a := range com.Args {
+				argsIn := com.Args
+				if extAliasesArg0Only(pkg, callee.Name()) && len(argsIn) > 0 {
+					argsIn = argsIn[:1] // the result is a sub-slice of the first argument
+				}
+				for _, a := range argsIn {
 					for _, tn := range targets {
 						s.copies = append(s.copies, [2]int{tn, s.node(a)})
 					}
